@@ -36,13 +36,26 @@ SPEC = dict(
                 "order (`keyed_per_key_order`); per-key results of keyed fold and keyed scan depend only on the key's "
                 "subsequence (`keyed_result_depends_only_on_key_subsequence_fold/_scan`), and this holds across arbitrary "
                 "tick partitions and cross-key interleavings of two runs (`keyed_fold_all_partitions_interleavings`, "
-                "`keyed_scan_all_partitions_interleavings`). Tie: the ordered / keyed part of the corpus (58 programs compiled "
+                "`keyed_scan_all_partitions_interleavings`). Added in review: the same per-key theorems for EVERY "
+                "KeyedStream::generator closure (Yield/Return/Break/Continue; `keyed_generator_per_key_order`, "
+                "`keyed_result_depends_only_on_key_subsequence_generator`, `keyed_generator_all_partitions_interleavings`) with the "
+                "instances keyed limit = per-key List.take, keyed enumerate = per-key zipIdx, keyed first = per-key head "
+                "(`keyed_limit_is_take_per_key`, `keyed_enumerate_is_zipIdx_per_key`, `keyed_first_is_head_per_key`); keyed reduce "
+                "(`keyed_result_depends_only_on_key_subsequence_reduce`, `keyed_reduce_all_partitions_interleavings`); keyed "
+                "streams with NoOrder values: a keyed fold with a commutativity proof ends with the same entries for all "
+                "partitions and all orders of the values (`keyed_noOrder_fold_all_partitions_orders`). "
+                "Tie: the ordered / keyed part of the corpus (79 programs compiled "
                 "through the production code generator) run under all/random tick partitions and, for keyed programs, under "
                 "random interleavings of different keys that keep each key's order; outputs diffed with the Lean driver "
                 "(keyed outputs compared per key via a stable sort by key) and checked on the real code against plain Rust "
                 "iterators, across partitions and across interleavings."),
-    level_note=("Trusted / not modelled: keyed streams with NoOrder values, merge_ordered, keyed reduce/first/limit/enumerate "
-                "(generator variants other than scan) are outside the model; keys are i64 residues mod 3 in the corpus; "
+    level_note=("Trusted / not modelled: merge_ordered (needs a nondet! token: its interleaving is not defined by the "
+                "semantics), keyed sort / unique / chain / fold_early_stop with a user closure / value_counts are outside the "
+                "model; a keyed TotalOrder stream is modelled as ONE totally ordered stream of (k,v) pairs (stronger than the "
+                "per-key promise; true of the lowering because keyed streams are DFIR streams of pairs), so cross-key order is "
+                "only abstracted at the observer (stable sort by key); keyed streams with NoOrder values exist only as "
+                "merge_unordered of keyed streams and are modelled as the unordered stream of entries; keys are i64 residues mod "
+                "3 in the corpus (arbitrary ints for a few generated programs); "
                 "HashMap iteration order canonicalised by sorting."),
     trusted_base=["per-tick semantics of DFIR scan / fold_keyed transcribed from dfir_lang/src/graph/ops",
                   "harness/hv_hydro/gen_programs.py maps program terms to Rust programs (reproducibility checked each run)"],
